@@ -119,6 +119,11 @@ let preds : (string * (val0 list -> bool)) list = [
   ("c16_pred", c16_pred); ("c16_reject_pred", c16_reject_pred); ("c16_nfkc_pred", c16_nfkc_pred);
   ("c07_enc_pred", c07_enc_pred oracles);
   ("c07_auto_pred", c07_auto_pred);
+  ("c19_oom_pred", c19_oom_pred); ("c04_url_pred", c04_url_pred); ("kf_f14b", kf_f14b); ("kf_f27", kf_f27);
+  ("c04_quote_pred", (function [WNat i; WStr s; WStr o] -> c04_quote_pred (nat_of_int (int_of_n i)) s o | _ -> false));
+  ("c03_quote_pred", (function [WNat i; WStr s; WStr o] -> c03_quote_pred (nat_of_int (int_of_n i)) s o | _ -> false));
+  ("c05_quote_pred", (function [WNat i; WStr s; WStr o] -> c05_quote_pred (nat_of_int (int_of_n i)) s o | _ -> false));
+  ("canon_n", (function [WNat i; WStr s] -> canon_n (nat_of_int (int_of_n i)) s | _ -> false));
   ("c10_pred", c10_pred);
   ("c10_trans_pred", c10_trans_pred);
   ("c17_ctor_pred", c17_ctor_pred);
